@@ -359,5 +359,50 @@ func main() {
 				c.Outcome(fmt.Sprintf("valid=%v", got))
 			}
 		}})
+	// every single-bit flip of a public key, in sequence in one process: the address formula must hold for each
+	// (an address that ignores part of the key, or a cache keyed on part of it, breaks this)
+	ck.Domains = append(ck.Domains, &drv.Domain{Name: "pk-bitflips", Size: 2*int64(dilithium.CryptoPublicKeyBytes)*8 + 3*67*8, Chunk: 512,
+		Desc: "address of the real key, then of the key with each single bit flipped (2 Dilithium keys x 20736 bits, 3 XMSS keys x 536 bits), alternating with the unflipped key: formula holds for every one",
+		Run: func(c *drv.Ctx, lo, hi int64) {
+			initReal(c.Seed)
+			nd := int64(dilithium.CryptoPublicKeyBytes) * 8
+			for i := lo; i < hi; i++ {
+				c.At(i)
+				c.Eval(1)
+				c.Nontrivial(1)
+				if i < 2*nd {
+					pk := realDilPKs[i/nd]
+					base := dilithium.GetDilithiumAddressFromPK(pk)
+					bit := i % nd
+					pk[bit/8] ^= 1 << uint(bit%8)
+					addr := dilithium.GetDilithiumAddressFromPK(pk)
+					want := append([]byte{0x10}, shake256(32, pk[:])[13:]...)
+					if !bytes.Equal(addr[:], want) || addr == base {
+						c.Fail(i, "dil-addr-formula-after-related-key", map[string]any{"flipped_bit": bit, "expected": drv.Hex(want), "observed": drv.Hex(addr[:])})
+					}
+				} else {
+					k := (i - 2*nd) / (67 * 8)
+					bit := (i - 2*nd) % (67 * 8)
+					pk := realXMSSPKs[k]
+					var base [20]byte
+					drv.Call(func() { base = xmss.GetXMSSAddressFromPK(pk) })
+					pk[bit/8] ^= 1 << uint(bit%8)
+					pk0 := pk
+					var addr [20]byte
+					out := drv.Call(func() { addr = xmss.GetXMSSAddressFromPK(pk) })
+					if pk0[1]>>4 != 0 {
+						if out == "ok" {
+							c.Fail(i, "xmss-addr-unsupported-fmt", map[string]any{"pk": drv.Hex(pk0[:])})
+						}
+						continue
+					}
+					want := append([]byte{pk0[0], pk0[1], 0}, shake256(32, pk0[:])[15:]...)
+					if out != "ok" || !bytes.Equal(addr[:], want) || addr == base {
+						c.Fail(i, "xmss-addr-formula-after-related-key", map[string]any{"flipped_bit": bit, "expected": drv.Hex(want), "observed": drv.Hex(addr[:])})
+					}
+				}
+				c.Outcome("ok")
+			}
+		}})
 	drv.Main(ck)
 }
